@@ -3,6 +3,34 @@
 use crate::json::J;
 use std::collections::{BTreeMap, HashSet};
 
+// ---- violation side-car --------------------------------------------------------------------
+// Every *new* violation signature is appended, the moment it is observed, as one JSON line to
+// `<out>.viol`. A stage that later hangs or crashes (a change that makes the code under test spin
+// or abort) has then still delivered what it saw: the driver reads the side-car when the stage
+// did not finish with a completed report, and stops a stage that keeps running long after its
+// first violation.
+static SIDECAR: std::sync::Mutex<Option<(String, Vec<String>)>> = std::sync::Mutex::new(None);
+
+pub fn set_sidecar(path: &str) {
+    let _ = std::fs::remove_file(path);
+    *SIDECAR.lock().unwrap_or_else(|e| e.into_inner()) = Some((path.to_string(), Vec::new()));
+}
+
+fn sidecar_append(sig: &str, detail: &str, case: &str) {
+    use std::io::Write;
+    let mut g = SIDECAR.lock().unwrap_or_else(|e| e.into_inner());
+    if let Some((path, seen)) = g.as_mut() {
+        if seen.len() >= 64 || seen.iter().any(|s| s == sig) {
+            return;
+        }
+        seen.push(sig.to_string());
+        let line = J::obj().set("sig", J::s(sig)).set("detail", J::s(detail)).set("case", J::s(case)).set("count", J::u(1)).to_string();
+        if let Ok(mut f) = std::fs::OpenOptions::new().create(true).append(true).open(&*path) {
+            let _ = writeln!(f, "{}", line);
+        }
+    }
+}
+
 #[derive(Clone, Debug)]
 pub struct Violation {
     /// stable signature: check-point | input class (used for de-duplication and known findings)
@@ -92,12 +120,9 @@ impl Report {
             self.count("violations_dropped_beyond_cap", 1);
             return;
         }
-        self.violations.push(Violation {
-            sig: sig.to_string(),
-            detail: detail.into(),
-            case: case.into(),
-            count: 1,
-        });
+        let (detail, case) = (detail.into(), case.into());
+        sidecar_append(sig, &detail, &case);
+        self.violations.push(Violation { sig: sig.to_string(), detail, case, count: 1 });
     }
     pub fn n_violations(&self) -> u64 {
         self.violations.iter().map(|v| v.count).sum()
